@@ -26,7 +26,7 @@ META = dict(
                 thorough="<=4 spatial orbitals, more selections and electron numbers"),
     outside=["PySCF integral evaluation, SCF convergence and the value of mf_energy it reports", "the numerical FCI/CCSD energies "
              "of the classical solvers (compiled code + eigensolver)", "invariance of the lowest eigenvalue under active-orbital "
-             "rotations (an eigenvalue statement)", "IEEE rounding", "UHF with different alpha/beta spatial orbitals beyond the "
+             "rotations (an eigenvalue statement; auxiliary concrete shapes aux/rotation only)", "IEEE rounding", "UHF with different alpha/beta spatial orbitals beyond the "
              "block structure checked here", "the 'frozen_core' default (element table)"],
     stubs=["IntegralSolverPySCF -> SymIntegralSolver (a Tangelo IntegralSolver subclass returning the harness' integrals)"],
     trusted_base=["symx.fock Slater-Condon rules", "symx.refsem"],
